@@ -56,7 +56,7 @@ CCallers == 1..4
 
 CacheP0(maxsize, ttl) ==
   [ms |-> maxsize, ttl |-> ttl, now |-> 0, n |-> 0,
-   calls |-> [c \in CCallers |-> [on |-> FALSE, k |-> 0, n |-> 0, now |-> 0, ev |-> FALSE]],
+   calls |-> [c \in CCallers |-> [on |-> FALSE, k |-> 0, n |-> 0, now |-> 0, ev |-> FALSE, hit |-> FALSE]],
                                       \* ev: an entry may have been evicted while this call was in progress
    ex |-> <<>>,                       \* executions: [k, c, st, ns, ne, te]
    creq |-> {},
@@ -98,6 +98,19 @@ EvictsBlindly(p, c, k) ==
       since == \E k2 \in CKeys : p.lastcall[k2] > p.calls[c].n \/ p.useend[k2] > p.calls[c].n
   IN MayEvict(p, k) /\ (othersOn \/ since \/ p.failed)
 
+\* At the start of a call on k the pinned code certainly finds k's result in the dict (and then
+\* returns it without ever touching a lock): nothing irregular has happened so far, the latest
+\* execution of k succeeded and is neither running nor expired, and fewer than maxsize other keys
+\* were executed since the earliest moment k can have taken its place in the order.  Used only to
+\* keep the KeyError finding narrow: such a call cannot be the waiter of F3a.
+CertainHit(p, k) ==
+  LET y == CLatestOk(p, k)
+      newer == {p.ex[x].k : x \in {z \in DOMAIN p.ex : p.ex[z].ns > p.okstart[k]}} \ {k}
+  IN /\ ~p.taint /\ ~p.ttaint /\ ~p.failed
+     /\ y # 0 /\ p.okval[k] = y /\ \A x \in DOMAIN p.ex : p.ex[x].k = k => x <= y
+     /\ (p.ttl = CNOTTL \/ p.now < p.ex[y].te + p.ttl)
+     /\ p.ms > 0 /\ Cardinality(newer) < p.ms
+
 \* split clause results into violations and known findings.  cl: record of clauses; kinds: record
 \* clause name -> "" (never excused) | "key" | "twice" | "size" | "order"
 CSigOf(p, kind) ==
@@ -116,7 +129,8 @@ CacheApply0(p0, e) ==
   CASE e.ev = "call" ->
          IF e.c \notin CCallers \/ e.k \notin CKeys \/ p.calls[e.c].on
          THEN [p |-> p, bad |-> {"UnknownEvent"}]
-         ELSE [p |-> [p EXCEPT !.calls[e.c] = [on |-> TRUE, k |-> e.k, n |-> p.n, now |-> p.now, ev |-> FALSE],
+         ELSE [p |-> [p EXCEPT !.calls[e.c] = [on |-> TRUE, k |-> e.k, n |-> p.n, now |-> p.now, ev |-> FALSE,
+                                                      hit |-> CertainHit(p, e.k)],
                                !.lastcall[e.k] = p.n],
                bad |-> {}]
     [] e.ev = "xstart" ->
@@ -161,7 +175,9 @@ CacheApply0(p0, e) ==
                     lu == IF p.useend[k] > x.ne THEN p.useend[k] ELSE x.ne
                     sure == p.useend[k] < call.n
                     newer == {k2 \in CKeys \ {k} :
-                                \E y \in COk(p) : p.ex[y].k = k2 /\ p.ex[y].ns > lu /\ p.ex[y].ne < call.n}
+                                \E y \in COk(p) : /\ p.ex[y].k = k2 /\ p.ex[y].ns > lu /\ p.ex[y].ne < call.n
+                                                   \* (an expired result may have been purged instead)
+                                                   /\ (p.ttl = CNOTTL \/ call.now < p.ex[y].te + p.ttl)}
                     cl == [RightValue |-> right,
                            NoStaleAfterTtl |-> (hit /\ p.ttl # CNOTTL) => call.now < x.te + p.ttl,
                            NoStaleAfterEvict |-> (hit /\ CBounded(p) /\ sure) => Cardinality(newer) < p.ms]
@@ -180,7 +196,7 @@ CacheApply0(p0, e) ==
            [] e.res = "cancelled" ->
                 [p |-> [pdone EXCEPT !.failed = TRUE], bad |-> CNames([CancelWasRequested |-> e.c \in p.creq])]
            [] e.res = "internal" ->
-                IF call.ev THEN [p |-> [pdone EXCEPT !.known = @ \cup {SigKeyError}, !.failed = TRUE], bad |-> {}]
+                IF call.ev /\ ~call.hit THEN [p |-> [pdone EXCEPT !.known = @ \cup {SigKeyError}, !.failed = TRUE], bad |-> {}]
                 ELSE [p |-> pdone, bad |-> {"NoInternalError"}]
            [] OTHER -> [p |-> p, bad |-> {"UnknownEvent"}]
     [] e.ev = "creq" -> [p |-> [p EXCEPT !.creq = @ \cup {e.c}], bad |-> {}]
@@ -193,6 +209,7 @@ CacheApply0(p0, e) ==
                          /\ p.okval[kd] # 0 /\ p.okval[kd] \notin alive
                          /\ p.lastcall[kd] = p.okstart[kd]
                          /\ p.okval[kd] = CLatestOk(p, kd)
+                         /\ (p.ttl = CNOTTL \/ p.now < p.ex[p.okval[kd]].te + p.ttl)   \* not simply expired
                          /\ \E ka \in CKeys \ {kd} :
                                /\ CLatestOk(p, ka) # 0 /\ CLatestOk(p, ka) \in alive
                                /\ p.useend[ka] < p.okstart[kd]
